@@ -158,6 +158,20 @@ class BuildError(Exception):
     pass
 
 
+class CacheEvicted(Exception):
+    """A binary or library of the cache disappeared while a check was using it (another process pruned the cache):
+    the check process restarts once and rebuilds (vlib/check.py main)."""
+
+
+def touch(path):
+    """Mark a cache entry as used now (the prune below goes by the later of atime and mtime; with `relatime` mounts
+    the atime of a file that is only executed or linked is not refreshed)."""
+    try:
+        os.utime(path, None)
+    except OSError:
+        pass
+
+
 def build_lib(variant="asan", jobs=None, verbose=False):
     """Returns (path to libprimitiv_verif.so, info dict). Raises BuildError when
     the working tree does not compile."""
@@ -176,6 +190,8 @@ def build_lib(variant="asan", jobs=None, verbose=False):
         objs.append(obj)
         if not os.path.exists(obj):
             todo.append((src, obj))
+        else:
+            touch(obj)
     t0 = time.time()
     with Lock("build"):
         # (one lock for every variant: prune() below must not remove objects another build is about to link)
@@ -190,6 +206,8 @@ def build_lib(variant="asan", jobs=None, verbose=False):
         libdir = os.path.join(CACHE, "lib")
         os.makedirs(libdir, exist_ok=True)
         lib = os.path.join(libdir, "libprimitiv_%s_%s.so" % (variant, libkey))
+        if os.path.exists(lib):
+            touch(lib)
         if not os.path.exists(lib):
             cmd = [cxx(), "-shared", "-o", lib + ".tmp"] + flags + objs + ["-lpthread"]
             r = subprocess.run(cmd, capture_output=True, text=True)
@@ -215,9 +233,11 @@ def build_harness(name, variant="asan", extra_flags=None, link_lib=True):
     os.makedirs(bindir, exist_ok=True)
     exe = os.path.join(bindir, "%s_%s_%s" % (name, variant, key))
     if os.path.exists(exe):
+        touch(exe)
         return exe
     with Lock("harness-" + name + variant):  # (links against the .so, not against objects)
         if os.path.exists(exe):
+            touch(exe)
             return exe
         cmd = [cxx()] + COMMON + flags + (extra_flags or []) + incs + [src, "-o", exe + ".tmp"]
         if lib:
@@ -241,7 +261,7 @@ def prune(max_bytes=30 << 30):
             p = os.path.join(d, f)
             try:
                 st = os.stat(p)
-                ents.append((st.st_atime, st.st_size, p))
+                ents.append((max(st.st_atime, st.st_mtime), st.st_size, p))
             except OSError:
                 pass
     total = sum(e[1] for e in ents)
@@ -249,8 +269,8 @@ def prune(max_bytes=30 << 30):
         return
     now = time.time()
     for at, sz, p in sorted(ents):
-        if now - at < 6 * 3600:
-            break           # never remove anything used in the last hours
+        if now - at < 12 * 3600:
+            break           # never remove anything used (built, linked against or handed out: see touch()) in the last 12 hours
         try:
             os.remove(p)
         except OSError:
